@@ -220,6 +220,27 @@ pub fn check_order(a: i64, b: i64) -> Result<(), String> {
     .unwrap_or_else(|p| Err(p))
 }
 
+/// chronological ordering across the two types: Date n (its midnight) vs Timestamp a, both
+/// argument orders, every operator
+pub fn check_mixed_order(n: i32, a: i64) -> Result<(), String> {
+    fn agree<A: PartialOrd<B> + PartialEq<B>, B>(a: &A, b: &B, want: std::cmp::Ordering) -> bool {
+        use std::cmp::Ordering::*;
+        a.partial_cmp(b) == Some(want) && (a == b) == (want == Equal) && (a != b) == (want != Equal) && (a < b) == (want == Less) && (a <= b) == (want != Greater) && (a > b) == (want == Greater) && (a >= b) == (want != Less)
+    }
+    guarded(|| -> Result<(), String> {
+        let (d, t) = (ad::date(n), ad::ts(a));
+        let dm = n as i128 * US_PER_DAY;
+        if !agree(&d, &t, dm.cmp(&(a as i128))) {
+            return Err(format!("Date({n}) <op> Timestamp({a}): comparison operators disagree with chronological order ({:?})", dm.cmp(&(a as i128))));
+        }
+        if !agree(&t, &d, (a as i128).cmp(&dm)) {
+            return Err(format!("Timestamp({a}) <op> Date({n}): comparison operators disagree with chronological order ({:?})", (a as i128).cmp(&dm)));
+        }
+        Ok(())
+    })
+    .unwrap_or_else(|p| Err(p))
+}
+
 pub fn eval(case: &Case) -> Verdict {
     let i = &case.i;
     let r = match case.kind.as_str() {
@@ -229,6 +250,7 @@ pub fn eval(case: &Case) -> Verdict {
         "time_oob" => check_time_oob(i[0] as i64),
         "ts_oob" => check_ts_oob(i[0] as i64),
         "order" => check_order(i[0] as i64, i[1] as i64),
+        "mixed_order" => check_mixed_order(i[0] as i32, i[1] as i64),
         k => Err(format!("unknown case kind {k}")),
     };
     match r {
@@ -272,6 +294,17 @@ pub fn run(ctx: &Ctx) -> (Stats, Report) {
                     st.fail(i, Case::new(P, "pair", vec![r.n as i128, t as i128], vec![]), m);
                     return;
                 }
+                // the instant against the dates around it (previous day, same day, next day, a far one)
+                let a = (r.n as i128 * US_PER_DAY + t as i128) as i64;
+                for dn in [r.n - 1, r.n, r.n + 1, c.rows[(mix64(i ^ k as u64) % c.len() as u64) as usize].n] {
+                    if dn >= c.first && dn <= c.last {
+                        st.evaluations += 1;
+                        if let Err(m) = check_mixed_order(dn, a) {
+                            st.fail(i, Case::new(P, "mixed_order", vec![dn as i128, a as i128], vec![]), m);
+                            return;
+                        }
+                    }
+                }
                 let key = mix64(seed ^ (i * 31 + k as u64));
                 if nt && key < st.sample_threshold() {
                     st.sample(key, || json!({"kind": "pair", "date": format!("{:04}-{:02}-{:02}", r.y, r.m, r.d), "day": r.n, "time_us": t}));
@@ -280,7 +313,7 @@ pub fn run(ctx: &Ctx) -> (Stats, Report) {
         }
     });
     st.merge(a);
-    st.exhaustive_sections.push(format!("all dates x {} critical times (+{} random times per date)", fixed.len(), nrand));
+    st.exhaustive_sections.push(format!("all dates x {} critical times (+{} random times per date), each instant also compared with the dates of the previous / same / next day", fixed.len(), nrand));
     st.section("dates_x_times", &mut mark);
 
     // B: every second x boundary microseconds; all microseconds at three seconds
@@ -460,7 +493,7 @@ pub fn run(ctx: &Ctx) -> (Stats, Report) {
     st.section("ordering_pairs", &mut mark);
 
     let rep = Report {
-        rule: "Exhaustive: every date x critical times of day (midnight, +1us, noon-1/noon/noon+1, last us, 11:59, 23:59:59) plus seeded random times; every second of the day x boundary microseconds (also inside the first/last supported day and the days around 1970); all 10^6 microseconds at three seconds; the (h,m,s,us) validity grid with u32 extremes; ordering/equality/hash over boundary-pool neighbour pairs and seeded pairs. Oracle: i128 arithmetic n*86400e6+t and div/rem decomposition, walked calendar for y/m/d. Non-trivial = before 1970, exact midnight or last microsecond of a day, rejected tuple, out-of-range count; ordering pairs counted by distinct fingerprint.".into(),
+        rule: "Exhaustive: every date x critical times of day (midnight, +1us, noon-1/noon/noon+1, last us, 11:59, 23:59:59) plus seeded random times, each instant also compared (==, !=, <, <=, >, >=, partial_cmp, both argument orders) with the Date of the previous, same and next day and a far day; every second of the day x boundary microseconds (also inside the first/last supported day and the days around 1970); all 10^6 microseconds at three seconds; the (h,m,s,us) validity grid with u32 extremes; ordering/equality/hash over boundary-pool neighbour pairs and seeded pairs. Oracle: i128 arithmetic n*86400e6+t and div/rem decomposition, walked calendar for y/m/d. Non-trivial = before 1970, exact midnight or last microsecond of a day, rejected tuple, out-of-range count; ordering pairs counted by distinct fingerprint.".into(),
         assumptions: vec![
             "second() is compared with the correctly rounded double of (microseconds within the minute)/10^6".into(),
             "hash consistency is checked with std's fixed-key DefaultHasher".into(),
